@@ -480,7 +480,7 @@ def to_np(T, x):
 
 
 # ---- seeded random operator trees (bounded grammar) ------------------------------------------------------------------------------------
-def random_trees(seed, count, max_depth=3, dtypes=("float64", "complex64", "float32", "complex128"), max_dim=6, square=False):
+def random_trees(seed, count, max_depth=3, dtypes=("float64", "complex64", "float32", "complex128"), max_dim=6, square=False, square_factors=False):
     """`count` distinct operator trees drawn from the tree grammar with a private generator (reproducible from `seed`).  Shapes are chosen
     top-down so that every combinator is well-formed; dimensions stay <= max_dim.  Not generated (each is tied to a recorded finding or
     needs a true declaration): annotated leaves, FFT, index arrays with repeated entries."""
@@ -506,6 +506,9 @@ def random_trees(seed, count, max_depth=3, dtypes=("float64", "complex64", "floa
             return ["perm", p, rng.choice([F8, "float32", "complex64"])]
         if k == "householder":
             return ["householder", n, rng.choice([F8, "complex128"])]
+        if k == "scalar" and square_factors:
+            # a complex scalar multiple of a single annotated factor under .H / .T is a recorded finding (annotation inheritance, C02 / C05)
+            return ["scalar", n, rng.choice([F8, "float32"])]
         return [k, n, dt()]
 
     def factor(n):
@@ -524,8 +527,25 @@ def random_trees(seed, count, max_depth=3, dtypes=("float64", "complex64", "floa
             options += ["blockdiag", "blockdiag", "concat"]
         if m >= 2 or n >= 2:
             options += ["concat"]
+        if square_factors:
+            # every sub-operator square (determinants / inverses factor through the structure): no slices, concatenations, sums, rule-less wrappers
+            options = ["product", "product", "transpose", "adjoint", "T", "H"] + (["kron", "kron", "blockdiag", "blockdiag"] if n >= 2 else [])
         k = rng.choice(options)
         d = depth - 1
+        if square_factors and k == "product":
+            return ["product"] + [gen(n, n, d) for _ in range(rng.choice([2, 2, 3]))]
+        if square_factors and k == "kron":
+            fs = [f for f in factor(n)]
+            a, b = rng.choice(fs)
+            return ["kron", gen(a, a, d), gen(b, b, d)]
+        if square_factors and k == "blockdiag":
+            k1 = rng.choice([c for c in (1, 2, 3) if c <= n])
+            a = rng.choice([x for x in range(1, n // k1 + 1)])
+            blocks, mult = [gen(a, a, d)], [k1]
+            if n - a * k1 > 0:
+                blocks.append(gen(n - a * k1, n - a * k1, d))
+                mult.append(1)
+            return ["blockdiag", blocks, mult]
         if k == "product":
             nf = rng.choice([2, 2, 3])
             dims = [m] + [rng.randint(1, 3) for _ in range(nf - 1)] + [n]
@@ -583,7 +603,7 @@ def random_trees(seed, count, max_depth=3, dtypes=("float64", "complex64", "floa
     tries = 0
     while len(out) < count and tries < 50 * count:
         tries += 1
-        if square:
+        if square or square_factors:
             m = n = rng.choice([1, 2, 2, 3, 3, 4])
         else:
             m, n = rng.choice([1, 2, 2, 3, 3, 4]), rng.choice([1, 2, 2, 3, 3, 4])
@@ -595,3 +615,19 @@ def random_trees(seed, count, max_depth=3, dtypes=("float64", "complex64", "floa
         seen.add(name)
         out.append(t)
     return out
+
+
+def lu_friendly(tree):
+    """True if no leaf would send the pivoted-LU stand-in into a path explosion: dense / Householder leaves of size <= 2, everything <= 4"""
+    k = tree[0]
+    if k in ("dense", ):
+        return max(tree[1], tree[2]) <= 2
+    if k in ("householder", "tridiag"):
+        return tree[1] <= 2
+    if k in ("tri", "scalar", "identity", "diag", "perm", "selfadj", "psd", "fft", "kernel"):
+        return True
+    if k == "blockdiag":
+        return all(lu_friendly(t) for t in tree[1])
+    if k == "concat":
+        return all(lu_friendly(t) for t in tree[1])
+    return all(lu_friendly(t) for t in tree[1:] if isinstance(t, list) and t and isinstance(t[0], str))
